@@ -103,7 +103,7 @@ def programs(depth, r, n):
 
 
 def run(tier, seed):
-    ck = Check("C08", tier, seed, areas=["compose"], gen_groups=["Wrappers"])
+    ck = Check("C08", tier, seed, areas=["compose"], gen_groups=["Wrappers", "Context"])
     ck.rule = ("wrapper programs (nestings of CompositeTransform / InverseTransform over integer-exact leaves x->2x+k "
                "with log-det 2^k, and a reversal) run on the real wrappers and on the extracted model with identical "
                "integer inputs; multiscale: all per-item shapes with <= 3 dims of size <= 4/5, every split_dim, 1-4 "
